@@ -97,10 +97,22 @@ static q120_mat1col_product_bbb_precomp* P_bbb;
 static q120_mat1col_product_bbc_precomp* P_bbc;
 
 uint64_t q120_product_check(q120_kernel_t k, int avx2, uint64_t ell, int famx, int famy, rng_t* r, unsigned mis) {
-  if (!P_baa) {
-    P_baa = q120_new_vec_mat1col_product_baa_precomp();
-    P_bbb = q120_new_vec_mat1col_product_bbb_precomp();
-    P_bbc = q120_new_vec_mat1col_product_bbc_precomp();
+  // fresh precomputations for every call, created in one of the six possible orders: a table must not depend on
+  // which other tables were built before it
+  {
+    static const int ORD[6][3] = {{0, 1, 2}, {0, 2, 1}, {1, 0, 2}, {1, 2, 0}, {2, 0, 1}, {2, 1, 0}};
+    const int* o = ORD[rng_u64(r) % 6];
+    if (P_baa) {
+      q120_delete_vec_mat1col_product_baa_precomp(P_baa);
+      q120_delete_vec_mat1col_product_bbb_precomp(P_bbb);
+      q120_delete_vec_mat1col_product_bbc_precomp(P_bbc);
+    }
+    for (int i = 0; i < 3; i++) {
+      if (o[i] == 0) P_baa = q120_new_vec_mat1col_product_baa_precomp();
+      else if (o[i] == 1) P_bbb = q120_new_vec_mat1col_product_bbb_precomp();
+      else P_bbc = q120_new_vec_mat1col_product_bbc_precomp();
+    }
+    cntf("precomp_creation_order:%d%d%d", 1, o[0], o[1], o[2]);
   }
   // element sizes in bytes
   const size_t xs = (k == K_X2_1COL || k == K_X2_2COLS) ? 64 : 32;
